@@ -50,6 +50,21 @@ def r1(run):
             if cb is not None and any(c.fn in RESPONDERS for c in cb.calls()):
                 kind = "mapping"
                 n_map += 1
+        elif x[0] == "agg" and x[1].get("variant") == "Ok" and x[2] and strip(x[2][0])[0] == "field" and isinstance(strip(x[2][0])[1], tuple) \
+                and strip(x[2][0])[1][0] == "downcast" and strip(x[2][0])[1][2] == "Ok":
+            # `match res { Ok(v) => Ok(v), Err(e) => response_500(..) }` (also what `res.or_else(|e| response_500(..))` denotes):
+            # the Ok arm forwards the route handler's response; the Err arm must be a responder
+            base = fmt(strip(strip(x[2][0])[1][1]))
+            mapped = False
+            for bb2, si2 in b.switches():
+                if si2["kind"] == "variant" and fmt(strip(si2["cond"])) == base:
+                    for (t2, lab2, m2) in si2["edges"]:
+                        if (set(m2) if isinstance(m2, tuple) else {m2}) == {"Err"}:
+                            reach2 = b.reachable_blocks([t2])
+                            mapped = any(rb3 in reach2 and strip(e3)[0] == "call" and strip(e3)[1].fn in RESPONDERS for (rb3, e3, raw3) in rets)
+            if mapped:
+                kind = "mapping"
+                n_map += 1
         elif x[0] == "call" and x[1].fn == "core::ops::try_trait::FromResidual::from_residual":
             kind = "early-error-return"
         site = x[1].sp if x[0] == "call" else b.blocks[bb]["term"]["sp"]
@@ -422,7 +437,10 @@ def r7(run):
         run.touch(cb)
         rd = q.live_calls(cb, C.READ)[0]
         a = strip(rd.arg(1))
-        run.ob("xs::api::handle_stream_cat|options-unmodified", a[0] == "field" and a[1][0] == "env" and a[2] == "options", rd.sp,
+        root = a
+        while root[0] in ("field", "deref", "ref"):
+            root = root[1]
+        run.ob("xs::api::handle_stream_cat|options-unmodified", a[0] == "field" and root[0] == "env" and a[2] == "options", rd.sp,
                "the route's ReadOptions are handed to Store::read unchanged: %s" % fmt(a), reason="options-rewritten")
         adaptors = [c.fn.split("::")[-1] for c in cb.calls() if c.bb in cb.live_blocks() and "StreamExt" in c.fn]
         run.ob("xs::api::handle_stream_cat|no-filtering", adaptors == ["map"], cb.sp, "the receiver stream is only mapped (rendered), never filtered / limited again: %s" % adaptors,
